@@ -56,6 +56,13 @@ Invalid == 9
 \* 7 min2  two different repeated selection sets on the same type at the same depth (minification applies)
 \* 8 rv    me{reviews{body author{id username} product{upc reviews{body author{id username}}}}} topProducts{...} (minification + entity fetches)
 \* 9 cat   cat{name}                                                       unrelated, single subgraph
+\* Shapes 10.. belong to a SECOND CONFIGURATION (harness/internal/planfed: hand-written supergraph; the property
+\* quantifies over configurations, a history stays on one engine = one configuration):
+\* 10 ptitle  me{id name title uuid}             title is reachable over two EQUALLY SHORT key chains (bridge-one | bridge-two)
+\* 11 pitems  items{owner{name} ...on Book{owner{name}}}     abstract list; unscoped + type-scoped duplicate entity fetch
+\* 12 pitems2 items{id ...on Film{minutes owner{name title}} owner{name title}}     scoped first, chains below a list
+\* 13 preq    a{x} b{y}                          two @requires dependencies from different subgraphs into one subgraph
+Cfg(s) == IF s <= 9 THEN 1 ELSE 2
 ArgKind(s) == CASE s \in {1, 5} -> "int" [] s = 3 -> "enum" [] OTHER -> "none"
 HasDir(s) == s \in {1, 2, 4, 5}
 NVal(s) == CASE s \in {1, 5} -> 3 [] s = 3 -> 2 [] OTHER -> 1
@@ -78,13 +85,14 @@ Base(s) == [s |-> s, nm |-> 0, src |-> "var", val |-> 0, dir |-> 0, ds |-> "var"
 
 \* requests one rewrite step away from p: the same operation with ONE dimension changed (rename the variables,
 \* literal <-> variable <-> default, another value, another skip/include truth value, another operation name,
-\* fragments <-> inline, add/remove an unrelated operation), p itself (repeat), or an unrelated operation.
+\* fragments <-> inline, add/remove an unrelated operation), p itself (repeat), or an unrelated operation of the
+\* same configuration.
 Rewrites(p) ==
   LET c == {[p EXCEPT !.nm = x] : x \in Nms} \cup {[p EXCEPT !.src = x] : x \in Srcs}
            \cup {[p EXCEPT !.val = x] : x \in (0..2) \cup {Invalid}} \cup {[p EXCEPT !.dir = x] : x \in Dirs}
            \cup {[p EXCEPT !.ds = x] : x \in DSrcs} \cup {[p EXCEPT !.op = x] : x \in Ops}
            \cup {[p EXCEPT !.fr = x] : x \in Frs} \cup {[p EXCEPT !.mo = x] : x \in Mos}
-           \cup {Base(s) : s \in Shapes \ {p.s}}
+           \cup {Base(s) : s \in {x \in Shapes \ {p.s} : Cfg(x) = Cfg(p.s)}}
   IN {r \in c : WellFormed(r)}
 
 \* ------------------------------------------------------------------ (A) the abstraction
